@@ -105,6 +105,51 @@ def gen_tuples(ctx):
     return jobs
 
 
+def weighted_ctor_oracle(ctx):
+    """WeightedAliasIndex::new and WeightedTreeIndex::{new,push,update} are constructors of C04 too: their documented error
+    conditions are checked on the real crate here (the full models and proofs are C08 / C09)."""
+    import c08, treelib as T
+    rng = ctx["rng"]
+    fails, n = [], 0
+    lines, meta = [], []
+    for ty, (lo, hi, sk) in T.ITYPES.items():
+        lens = [0, 1, 2, 3, 7]
+        if hi < 2**16:                       # the length does not fit the weight type
+            lens += [hi - 1, hi, hi + 1, hi + 2, 2 * hi + 3]
+        for ln in lens:
+            for fill in ("zero", "one_nonzero", "max", "over", "neg", "rand"):
+                mw = hi // ln if ln and ln <= hi else 0
+                if fill == "zero": ws = [0] * ln
+                elif fill == "one_nonzero": ws = [0] * ln; ws[ln // 2:ln // 2 + 1] = [min(1, hi)] if ln else []
+                elif fill == "max": ws = [mw] * ln
+                elif fill == "over": ws = [0] * ln; ws[-1:] = [min(hi, mw + 1)] if ln else []
+                elif fill == "neg":
+                    if lo >= 0: continue
+                    ws = [1] * ln; ws[:1] = [-1] if ln else []
+                else: ws = [rng.below(mw + 1) for _ in range(ln)]
+                lines.append("alias %s 0 %s" % (ty, ",".join(str(w) for w in ws) if ws else "-")); meta.append(("alias", ty, ws))
+    for ty in T.ITYPES:
+        for ops in T.exhaustive_histories(ty, 2, 1):
+            lines.append(T.harness_line(ty, ops)); meta.append(("tree", ty, ops))
+    outs = run_harness_guarded_parallel(ctx["binary"], lines, batch_timeout=300, line_timeout=20, chunk=200)
+    for (kind, ty, x), line, o in zip(meta, lines, outs):
+        n += 1
+        if kind == "alias":
+            exp = c08.spec_new(ty, x)
+            got = o.split("|")[0]
+            if got != exp:
+                fails.append({"property": PID, "class": "weighted-ctor", "ctor": "WeightedAliasIndex::new", "type": ty, "harness_line": line[:300],
+                              "what": "WeightedAliasIndex::<%s>::new(%d weights: %s…) returned %s, documented %s" % (ty, len(x), x[:6], got, exp)})
+        else:
+            if o in ("HANG",) or o.startswith("CRASH"):
+                continue
+            recs = [T.parse_rec(r) for r in o.split(";")]
+            why = T.oracle_c09(ty, x, recs)
+            if why:
+                fails.append({"property": PID, "class": "weighted-ctor", "ctor": "WeightedTreeIndex", "type": ty, "harness_line": line[:300], "what": why})
+    return n, fails
+
+
 def correspond(ctx):
     jobs = gen_tuples(ctx)
     lines = ["ctor %s %s %s" % (name, ty if name not in ("Binomial::new", "Geometric::new", "Hypergeometric::new") else "u64",
@@ -153,15 +198,18 @@ def correspond(ctx):
                 if known1 or known2: cls = "hypergeometric-new-overflow"
             oracle_failures.append({"property": PID, "class": cls, "ctor": name, "type": ty, "args": hs, "harness_line": lines[n],
                                     "what": "%s<%s>(%s) returned %s, which the documented domain does not allow" % (name, ty, vals, outs[n])})
+    nw, wfails = weighted_ctor_oracle(ctx)
+    oracle_failures += wfails
     return {
-        "evaluations": len(jobs), "distinct_nontrivial": len({(j[0], j[1], tuple(j[2])) for j in jobs}),
+        "evaluations": len(jobs) + nw, "distinct_nontrivial": len({(j[0], j[1], tuple(j[2])) for j in jobs}),
         "rule": "28 constructor entry points x {f32,f64}: cross product of the special-value lattice (NaN, +-inf, +-0, min/max subnormal and normal, "
                 "1, +-1, 0.5, 2, 0.1, 2/3, 12, MAX_LAMBDA, overflow thresholds, each +-1 ulp, random bit patterns) per argument (sampled beyond the "
                 "tier's cap per constructor), Dirichlet vectors of length 0-4, Binomial n and Hypergeometric N,K,n at the u64 extremes; for every "
                 "tuple: real result vs Coq model (debug build) and real result vs documented spec (direct oracle)",
         "samples": [lines[0], lines[len(lines) // 2], lines[-1]],
         "mismatches": mismatches, "oracle_failures": oracle_failures,
-        "extra": {"per_constructor": per, "outcomes": outcome, "watchdog_hangs": hangs, "tuples_without_model": skipped_model},
+        "extra": {"per_constructor": per, "outcomes": outcome, "watchdog_hangs": hangs, "tuples_without_model": skipped_model,
+                  "weighted_constructor_cases": nw},
     }
 
 
